@@ -147,12 +147,14 @@ Fixpoint extend_genes (fuel : nat) (s : src) (l : list Z) (n : nat) : res (list 
        | S f => let* (v, s') := randint s 0 1024 in extend_genes f s' (l ++ [v]) n
        end.
 
+Definition pos_of (m : list (ty * nat)) (k : ty) : nat := match tget m k with Some n => n | None => O end.
+
 (* DynamicSGEDecider.read *)
 Definition dsge_read (k : ty) : M Z :=
   fun st =>
-  match tget (st_pos st) k with
-  | None => (Err KeyError, st)                       (* self.positions[ty] *)
-  | Some n =>
+  (* self.positions.get(ty, 0): keys that are not grammar symbols (a Union, Genotype) start at 0 too (repair of F45) *)
+  match pos_of (st_pos st) k with
+  | n =>
       let l := match tget (st_dna st) k with Some l => l | None => [] end in
       match extend_genes (S n) (st_src st) l n with
       | Err e => (Err e, st)
@@ -225,7 +227,7 @@ Fixpoint prog_weights (g : grammar) (target : Z) (ctx : sctx) (l : list ty) : re
   | [] => Ok []
   | x :: t =>
       let* w := (if in_rec g x then Ok (target / (c_depth ctx + 1))
-                 else let* v := gdist_ty g x in Ok (target - v)) in
+                 else let* v := gdist_ty g x in Ok (Z.max (target - v) 0)) in       (* clamped (repair of F44) *)
       let* r := prog_weights g target ctx t in
       Ok ((inject_Z w * prod_weight g x)%Q :: r)
   end.
